@@ -32,7 +32,17 @@ func init() {
 			return nil
 		},
 		"(*sync.WaitGroup).Done": func(in *Interp, fn *ssa.Function, a []Value) Value { syncObj(a[0]).Count--; return nil },
-		"(*sync.WaitGroup).Wait": func(in *Interp, fn *ssa.Function, a []Value) Value { in.runGoroutines(); return nil },
+		// Wait runs started goroutines until the counter is zero, newest first (the goroutines this wait group is
+		// waiting for were started last); older, unrelated goroutines stay pending
+		"(*sync.WaitGroup).Wait": func(in *Interp, fn *ssa.Function, a []Value) Value {
+			wg := syncObj(a[0])
+			for wg.Count > 0 && len(in.goq) > 0 {
+				g := in.goq[len(in.goq)-1]
+				in.goq = in.goq[:len(in.goq)-1]
+				g()
+			}
+			return nil
+		},
 		"fmt.Sprint":             func(in *Interp, fn *ssa.Function, a []Value) Value { return concreteStr("<fmt>") },
 		"fmt.Errorf":             fmtErrorf,
 		"time.Now":               func(in *Interp, fn *ssa.Function, a []Value) Value { return zero(fn.Signature.Results().At(0).Type()) },
